@@ -10,6 +10,10 @@ package sim
 //	                through and then fails every write (a connection reset by the backend, found out mid-request)
 //	        f<k>    the next freshly dialled connection does that from its first byte
 //	        x       the next dial is refused
+//	        h       the backend sends the response header and 10 of 100 body bytes, then closes (RoundTrip has succeeded:
+//	                nothing may be resent)
+//	        r       the backend closes the connection without answering
+//	        t       the backend does not answer before ResponseHeaderTimeout (150 ms; it is released when RoundTrip is back)
 //
 // Requests run one after the other (clusterInvoke, response drained so that the connection goes back to the idle pool,
 // FinishReq) against real loopback HTTP backends.  A recording RoundTripper wraps the real transport and notes, per
@@ -113,6 +117,8 @@ func (r *trRecorder) RoundTrip(req *bfe_http.Request) (*bfe_http.Response, error
 var (
 	trOnce    sync.Once
 	trServers []*httptest.Server
+	trGateMu  sync.Mutex
+	trGate    chan struct{} // closed when the request with plan t is over
 )
 
 // ExecTransport runs one tr/ op.
@@ -147,6 +153,35 @@ func ExecTransport(op string) string {
 		for j := 0; j < 2; j++ {
 			trServers = append(trServers, httptest.NewServer(stdhttp.HandlerFunc(func(w stdhttp.ResponseWriter, r *stdhttp.Request) {
 				io.Copy(ioutil.Discard, r.Body)
+				switch r.Header.Get("X-Fault") {
+				case "h":
+					w.Header().Set("Content-Length", "100")
+					w.Write([]byte("0123456789"))
+					if f, ok := w.(stdhttp.Flusher); ok {
+						f.Flush()
+					}
+					if hj, ok := w.(stdhttp.Hijacker); ok {
+						if c, _, err := hj.Hijack(); err == nil {
+							c.Close()
+						}
+					}
+					return
+				case "r":
+					if hj, ok := w.(stdhttp.Hijacker); ok {
+						if c, _, err := hj.Hijack(); err == nil {
+							c.Close()
+						}
+					}
+					return
+				case "t":
+					trGateMu.Lock()
+					g := trGate
+					trGateMu.Unlock()
+					select {
+					case <-g:
+					case <-time.After(30 * time.Second):
+					}
+				}
 				w.Header().Set("Content-Length", "2")
 				w.Write([]byte("ok"))
 			})))
@@ -169,7 +204,7 @@ func ExecTransport(op string) string {
 	refuseNext := false
 	tr := &bfe_http.Transport{
 		MaxIdleConnsPerHost:   2,
-		ResponseHeaderTimeout: 5 * time.Second,
+		ResponseHeaderTimeout: 150 * time.Millisecond, // only plan t lets it expire (the backend is gated, not slow)
 		DisableCompression:    true,
 	}
 	tr.Dial = func(network, addr string) (net.Conn, error) {
@@ -238,8 +273,14 @@ func ExecTransport(op string) string {
 			return "bad-op"
 		}
 		// fault plan
+		fault := ""
 		switch p[1][0] {
 		case 'n':
+		case 'h', 'r', 't':
+			fault = p[1][:1]
+			trGateMu.Lock()
+			trGate = make(chan struct{})
+			trGateMu.Unlock()
 		case 'x':
 			mu.Lock()
 			refuseNext = true
@@ -266,6 +307,9 @@ func ExecTransport(op string) string {
 		u, _ := url.Parse("http://placeholder/")
 		hr := &bfe_http.Request{Method: method, URL: u, Header: bfe_http.Header{}, Proto: "HTTP/1.1", ProtoMajor: 1,
 			ProtoMinor: 1, Host: "example.org", RequestURI: "/", State: new(bfe_http.RequestState)}
+		if fault != "" {
+			hr.Header.Set("X-Fault", fault)
+		}
 		rec.body = nil
 		if L > 0 {
 			rec.body = &trBody{r: bytes.NewReader(bytes.Repeat([]byte{'x'}, L))}
@@ -283,8 +327,11 @@ func ExecTransport(op string) string {
 			rsStr := "nil"
 			if res != nil {
 				rsStr = strconv.Itoa(res.StatusCode)
-				io.Copy(ioutil.Discard, res.Body) // as sendResponse does: the connection can go back to the idle pool
+				_, berr := io.Copy(ioutil.Discard, res.Body) // as sendResponse does: the connection can go back to the idle pool
 				res.Body.Close()
+				if berr != nil {
+					rsStr += "~bodyerr"
+				}
 			}
 			return fmt.Sprintf(">res=%s,err=%s,act=%d", rsStr, errName(err), action)
 		})
@@ -292,6 +339,11 @@ func ExecTransport(op string) string {
 			return "HANG"
 		}
 		rt := req.RetryTime
+		if fault != "" {
+			trGateMu.Lock()
+			close(trGate)
+			trGateMu.Unlock()
+		}
 		vh.Safe(func() string { env.FinishReq(req); return "" })
 		// a fault that was armed for a fresh connection but not used must not leak into the next request
 		mu.Lock()
@@ -327,6 +379,8 @@ func GenTransport(r *vh.Rand) string {
 				plan = fmt.Sprintf("f%d", ks[r.Intn(len(ks))])
 			case 5:
 				plan = "x"
+			case 6:
+				plan = string("hrrt"[r.Intn(4)])
 			}
 		} else if r.Chance(1, 6) {
 			plan = "x"
